@@ -115,7 +115,7 @@ def transform_cartesian_to_cylindrical(x_y_z):
     x, y, z = x_y_z
     rho = np.hypot(x, y)
     phi = np.arctan2(y, x) % (2*np.pi)
-    z = (np.full(rho.size, z) if np.size(z) == 1 else z)
+    z = (np.full(np.shape(rho), z) if np.size(z) == 1 else z)
     return np.array([rho, phi, z])
 
 
@@ -123,7 +123,7 @@ def transform_cylindrical_to_cartesian(rho_phi_z):
     rho, phi, z = rho_phi_z
     x = rho * np.cos(phi)
     y = rho * np.sin(phi)
-    z = (np.full(x.size, z) if np.size(z) == 1 else z)
+    z = (np.full(np.shape(x), z) if np.size(z) == 1 else z)
     return np.array([x, y, z])
 
 
